@@ -1,7 +1,8 @@
 //@ unit prec
 //@ serves C02 C04
-//@ must_verify precedence_level parse_expression parse_bool_operator parse_dot_operator parse_sum_operator parse_product_operator parse_compare_operator parse_operator_element parse_op parse_precedence SliceIter::next eoi Result::is_complete lemma_split_is lemma_split_range
+//@ must_verify op_expression precedence_level parse_expression parse_bool_operator parse_dot_operator parse_sum_operator parse_product_operator parse_compare_operator parse_operator_element parse_op parse_precedence SliceIter::next eoi Result::is_complete lemma_split_is lemma_split_range
 //@ include prelude/head.rs
+use std::rc::Rc;
 
 //@ extract dep:abortable_parser/src/combinators.rs :: macro run
 //@ end
@@ -28,6 +29,7 @@ verus! {
 //@   rule R0
 //@ end
 //@ clone_spec BinaryExprType Expression Position
+//@ include prelude/prec_tokens_spec.rs
 
 pub uninterp spec fn expr_pos(e: Expression) -> Position;
 
@@ -309,7 +311,7 @@ pub open spec fn pre_parse_op(s: Seq<Element>, lhs: Expression, o: int, a: int) 
     requires wf(i.source@), i.offset == 0
     ensures
         r matches Result::Complete(rest, t)
-        && rest.offset == i.source@.len()
+        && rest.source == i.source && rest.offset == i.source@.len()
         && t == expected(i.source@, 0, i.source@.len() - 1),
 //@   >>>
 //@   before "parse_op(expr, rest, 0)" <<<
@@ -317,6 +319,55 @@ pub open spec fn pre_parse_op(s: Seq<Element>, lhs: Expression, o: int, a: int) 
 //@   >>>
 //@   after "parse_op(expr, rest, 0)" <<<
  }
+//@   >>>
+//@ end
+
+
+// ---------- link to units/prec_tokens.unit.rs ----------
+impl<C> Error<C> {
+    #[verifier::external_body]
+    pub fn get_msg<'a>(&'a self) -> &'a str { unimplemented!() }
+}
+//@ extract dep:abortable_parser/src/iter.rs :: impl * SliceIter<'a, T> :: fn new
+//@   impl_header impl<'a, T> SliceIter<'a, T>
+//@   ret r
+//@   sig <<<
+        ensures r.source == source, r.offset == 0
+//@   >>>
+//@ end
+//@ extract src/parse/mod.rs :: type ParseResult
+//@ end
+
+// PROVED in units/prec_tokens.unit.rs (same ensures text), assumed here
+//@ extract src/parse/precedence.rs :: fn parse_operand_list
+//@   opaque_body
+//@   ret r
+//@   sig <<<
+    ensures
+        r matches Result::Complete(rest, list) ==> ({
+            let src = i.source@;
+            &&& wf(list@)
+            &&& rest.source == i.source && i.offset < rest.offset <= src.len()
+            &&& exists|st: Seq<int>| layout(src, list@, st, i.offset as int, rest.offset as int)
+            &&& cur_tok_op(rest) is None
+        }),
+        r is Fail ==> operand_fails(i.source@, i.offset as int),
+//@   >>>
+//@ end
+
+//@ extract src/parse/precedence.rs :: fn op_expression
+//@   ret r
+//@   sig <<<
+    ensures
+        r matches Result::Complete(rest, e) ==> ({
+            let src = i.source@;
+            &&& rest.source == i.source && i.offset < rest.offset <= src.len()
+            &&& cur_tok_op(rest) is None
+            &&& exists|list: Seq<Element>, st: Seq<int>| wf(list)
+                    && #[trigger] layout(src, list, st, i.offset as int, rest.offset as int)
+                    && e == expected(list, 0, list.len() - 1)
+        }),
+        r is Fail ==> operand_fails(i.source@, i.offset as int),
 //@   >>>
 //@ end
 
